@@ -959,8 +959,8 @@ reg('C05', run_C05, ['Prop_C05.v'], BERULE + 'evaluations = cells looked up thro
     level_text="Proved in Coq for every matrix and every duplicate-free row order: lookup through the packed arrays returns the cell (C05_lookup_core, C05_lookup), unpacking the packed arrays gives back the matrix (C05_pack_roundtrip), and the packed and dense parsers of the model pipeline agree on every input (C05_packed_agrees). On every run every cell of every corpus grammar is looked up through the implementation's own packed arrays (template Action() logic) and compared with GTable, random matrices go through utils.PackTable/UnPackTable, and packed vs -u generated parsers are compared on all inputs.",
     level_note=MODEL_NOTE)
 reg('C06', run_C06, ['Prop_C06.v'], I6RULE + 'evaluations = rejected runs; non-trivial = distinct (conflict-free grammar, non-sentence) whose error position is compared with an Earley viable-prefix computation',
-    technique='Coq theorem (no Crash / nil return under the table certificate) + outcome classification and fetch count of every rejected run of the real parsers vs Earley viable-prefix computation and the model',
-    level_text='Proved in Coq: under the certificate satisfied by generated tables the LR machine never ends in Crash or a nil return; it accepts, reports a syntax error or is still running (C06_no_crash), also for the model pipeline as run in every variant (C06_pipeline). Every rejected run of the five real variants must use the documented error channel; for conflict-free grammars the number of tokens requested at the error must be (first token that cannot continue a sentence)+1 as computed by an Earley recogniser; every accepted run is re-executed by the verified checker. Halting on non-sentences is checked by a reduction limit, not proved (partial).',
+    technique='Coq theorems (no Crash / nil return under the table certificate; a token is shifted only if input-so-far plus that token begins a sentence: soundness of LR(1) items over access paths + parse trees on the stack + productivity) + outcome classification and fetch count of every rejected run of the real parsers vs Earley viable-prefix computation and the model',
+    level_text='Proved in Coq: under the certificate satisfied by generated tables the LR machine never ends in Crash or a nil return; it accepts, reports a syntax error or is still running (C06_no_crash), also for the model pipeline as run in every variant (C06_pipeline); and the error is reported at the first bad token: after any number of steps from the initial configuration, for ANY table satisfying the certificate (any lookahead sets, any precedences), if the next action shifts the next token then the input read so far followed by that token begins a sentence - so a token that cannot continue any sentence is never shifted, and because an Error cell stops the machine, nothing after it is requested (C06_never_shifts_a_bad_token, via C06_shift_extends_viable_prefix: the stack symbols plus a shiftable symbol are a viable prefix; C06_step_is_run ties the step function to the machine of the other theorems). Every rejected run of the five real variants must use the documented error channel; for conflict-free grammars the number of tokens requested at the error must be (first token that cannot continue a sentence)+1 as computed by an Earley recogniser; every accepted run is re-executed by the verified checker. Halting on non-sentences (finitely many reductions before the error) is checked by a reduction limit, not proved (partial).',
     level_note=MODEL_NOTE + ' The Earley recogniser (python) is untrusted search: a case it flags is confirmed against the model.')
 reg('C07', run_C07, ['Prop_C07.v'], I6RULE + 'actions: $$ = (c + sum coef_i*$i) mod 1000003 with random coefficients and random union fields per symbol; non-trivial = accepted inputs whose derivation uses a rule of length >= 2',
     technique='Coq theorem (value returned = bottom-up evaluation over the parse tree, Dollar slice addressing for every rule length) + verified replay of every accepted run of the real parsers with random linear actions',
